@@ -185,6 +185,52 @@ theorem C10_batch_eq_seq_disjoint {σ D C : Type} (ci : Bool) (limit : Int) (P :
   have := C10_batch_eq_seq_contract ci limit P gs proj T S hc mw s0 tasks (by rw [hall]; exact hd) hok
   rwa [hall] at this
 
+/-! ## each approved batch reaches apply exactly once -/
+
+/-- **Apply exactly once, for every limit and outcome.**  Whatever the staging limit, the stager
+state, the CI setting and whether or not a back-pressure retry raises: the commit loop hands the
+buffers' delta batches to `apply_changes` in commit order, each AT MOST once (the trace is a prefix
+of the buffers' batches — a back-pressure flush never re-runs a commit), each EXACTLY once when
+the loop finishes, and when a retry raises the trace stops with the buffer whose record raised. -/
+theorem C10_commit_applies_each_once {σ D : Type} (ci : Bool) (apply : σ → D → σ × ApplyOut) :
+    ∀ (bs : List (Buffer D)) (l : Loop) (s : σ),
+    (commitLoop ci apply l s bs).applied <+: bs.map (·.deltas) ∧
+    ((commitLoop ci apply l s bs).ok = true → (commitLoop ci apply l s bs).applied = bs.map (·.deltas)) ∧
+    ((commitLoop ci apply l s bs).ok = false → (commitLoop ci apply l s bs).applied ≠ [])
+  | [], l, s => by simp [commitLoop]
+  | b :: bs, l, s => by
+    simp only [commitLoop, List.map_cons]
+    by_cases h : (loopStep ci l (applyArrival b (apply s b.deltas).2)).2 = true
+    · simp only [h, if_true]
+      have ih := C10_commit_applies_each_once ci apply bs
+        (loopStep ci l (applyArrival b (apply s b.deltas).2)).1 (apply s b.deltas).1
+      refine ⟨(List.prefix_cons_inj _).mpr ih.1, fun hok => by rw [ih.2.1 hok], fun _ => by simp⟩
+    · simp only [h]
+      refine ⟨?_, fun hc => by simp at hc, fun _ => by simp⟩
+      exact ⟨bs.map (·.deltas), by simp⟩
+
+/-- the same for a whole batch run: the apply-call trace is a prefix of the computed buffers'
+batches in commit order, and all of them — each once — exactly when the driver finishes. -/
+theorem C10_batch_applies_each_once {σ D : Type} (ci : Bool) (limit : Int) (P : Params σ D)
+    (gs : Str → List Str) (mw : Int) (s0 : σ) (tasks : List (Str × Str)) :
+    runParApplied ci limit P gs mw s0 tasks <+: (sortBuffers (bufsOf P gs mw s0 tasks)).map (·.deltas) ∧
+    ((runPar ci limit P gs mw s0 tasks).ok = true →
+      runParApplied ci limit P gs mw s0 tasks = (sortBuffers (bufsOf P gs mw s0 tasks)).map (·.deltas)) := by
+  unfold runParApplied runPar bufsOf
+  by_cases h1 : (loopRun ci ⟨Stager.new limit, []⟩
+      (logArrivals ((computed gs mw tasks).map (fun t => P.compute s0 t.1 t.2)))).2 = true
+  · simp only [h1, if_true]
+    have c := C10_commit_applies_each_once ci P.apply
+      (sortBuffers ((computed gs mw tasks).map (fun t => P.compute s0 t.1 t.2)))
+      (loopRun ci ⟨Stager.new limit, []⟩
+        (logArrivals ((computed gs mw tasks).map (fun t => P.compute s0 t.1 t.2)))).1 s0
+    refine ⟨c.1, fun hok => c.2.1 ?_⟩
+    by_contra hn
+    simp only [Bool.not_eq_true] at hn
+    simp [hn] at hok
+  · simp only [h1]
+    exact ⟨List.nil_prefix, fun hok => by simp at hok⟩
+
 /-! ## staging limit -/
 
 /-- The driver finishes (no `LOG_STAGING_BACKPRESSURE` leaves it) **iff** every single staged
@@ -362,6 +408,12 @@ example :
     ∀ p ∈ [wT1, wT4, applyPath],
       fileOf p (runPar false 80 (worldParams 3 0 wScripts) wGs 2 wWorld wTasks).written
         = fileOf p (runPar false 100000 (worldParams 3 0 wScripts) wGs 2 wWorld wTasks).written := by decide
+
+/-- under limit 80 the back-pressure flush falls exactly on an apply record; the commit is not
+re-run: two apply calls for two buffers, version 0 → 2. -/
+example :
+    runParApplied false 80 (worldParams 3 0 wScripts) wGs 2 wWorld wTasks = [[(wG1, 1)], [(wG2, 2)]] ∧
+    (runPar false 80 (worldParams 3 0 wScripts) wGs 2 wWorld wTasks).state.version = 2 := by decide
 
 /-- **Limit too small** (DESIGN §5 row 10; recorded finding).  Full-strength reading of "all
 staging byte limits from 1 byte upward" — `∀ limit ≥ 1, ok ∧ files = sequential` — is FALSE of
